@@ -55,6 +55,8 @@ fn ty_name(t: &Type, cx: &Ctx) -> R<String> {
                 "Self" => Ok(cx.self_ty.clone()),
                 "Fq" | "Fq2" | "Fq4" | "Fq12" | "Fr" | "G1" | "G2" | "G2Prepared" => Ok(name),
                 "Gt" => Ok("Fq12".into()),
+                "AffineG1" if cx.lib => Ok("AffineG Fq".into()),
+                "AffineG2" if cx.lib => Ok("AffineG Fq2".into()),
                 "bool" => Ok("Bool".into()),
                 "usize" | "u128" | "u64" | "u32" | "u8" => Ok("Nat".into()),
                 "Base" => cx.mono.clone().ok_or_else(|| "P::Base outside a monomorphised impl".to_string()),
@@ -118,6 +120,7 @@ fn is_group(cx: &Ctx, e: &Expr) -> bool {
         Expr::Reference(r) => is_group(cx, &r.expr),
         Expr::Unary(u) => is_group(cx, &u.expr),
         Expr::Path(p) => cx.group_vars.borrow().contains(&path_str(&p.path)),
+        Expr::Field(f) if cx.lib && matches!(&f.member, Member::Unnamed(i) if i.index == 0) => is_group(cx, &f.base),
         Expr::Binary(b) => matches!(b.op, BinOp::Add(_) | BinOp::Sub(_) | BinOp::Mul(_)) && is_group(cx, &b.left),
         Expr::Call(c) => matches!(&*c.func, Expr::Path(p) if { let s = path_str(&p.path); s == "G::zero" || s == "G::one" }),
         Expr::Struct(s) => path_str(&s.path) == "G",
@@ -175,6 +178,10 @@ fn lib_expr(cx: &Ctx, e: &Expr) -> R<Option<String>> {
                 ("AffineG2::new", 2) => format!("(Sm9.AffineG.new (F := Fq2) {} {})", paren(&args[0]), paren(&args[1])),
                 ("AffineG1::from_jacobian", 1) | ("AffineG2::from_jacobian", 1) => format!("{}.to_affine", paren(&args[0])),
                 ("Self::from_slice", 1) => if cx.elem == "Fq" { format!("(Sm9.Api.g1FromSlice {})", paren(&args[0])) } else { format!("(Sm9.Api.g2FromSlice {})", paren(&args[0])) },
+                ("groups::G1::zero", 0) | ("groups::G2::zero", 0) => "Sm9.G.zero".into(),
+                ("groups::G1::one", 0) | ("groups::G2::one", 0) => "Sm9.G.one".into(),
+                ("groups::G1::new", 3) | ("groups::G2::new", 3) => format!("(Sm9.G.new {} {} {})", paren(&args[0]), paren(&args[1]), paren(&args[2])),
+                ("fields::Fq12::one", 0) => "Sm9.Fq12.one".into(),
                 ("pairings::pairing", 2) => hoist(cx, format!("Sm9.Pairings.pairing {} {}", paren(&args[0]), paren(&args[1])))?,
                 ("pairings::fast_pairing", 2) => hoist(cx, format!("Sm9.Pairings.fast_pairing {} {}", paren(&args[0]), paren(&args[1])))?,
                 _ => return Ok(None),
@@ -211,11 +218,14 @@ fn lib_expr(cx: &Ctx, e: &Expr) -> R<Option<String>> {
                 }
                 ("is_even", 0) => { let r = expr(cx, &m.receiver)?; if cx.elem == "Fq" { format!("{}.is_even", paren(&r)) } else { format!("(Sm9.Api.fq2IsEven {})", paren(&r)) } }
                 ("sqrt", 0) => format!("{}.sqrt", paren(&expr(cx, &m.receiver)?)),
+                ("pow", 1) if cx.self_ty == "Fq12" => format!("(Sm9.Api.gtPow {} {})", paren(&expr(cx, &m.receiver)?), paren(&expr(cx, &m.args[0])?)),
+                ("to_slice", 0) if cx.self_ty == "Fq12" && cx.ns == "LibGt" => format!("(Sm9.Api.fq12ToSlice {})", paren(&expr(cx, &m.receiver)?)),
+                ("to_affine", 0) | ("to_jacobian", 0) | ("is_zero", 0) | ("inverse", 0) => format!("{}.{}", paren(&expr(cx, &m.receiver)?), name),
                 ("to_slice", 0) => {
                     let r = expr(cx, &m.receiver)?;
                     if matches!(&*m.receiver, Expr::Path(p) if path_str(&p.path) == "self") {
                         hoist(cx, format!("{} {}", if cx.elem == "Fq" { "Sm9.Api.g1ToSlice" } else { "Sm9.Api.g2ToSlice" }, paren(&r)))?
-                    } else if cx.elem == "Fq" { format!("(Sm9.Api.fqToSlice {})", paren(&r)) } else { format!("(Sm9.Api.fq2ToSlice {})", paren(&r)) }
+                    } else { match cx.elem.as_str() { "Fq" => format!("(Sm9.Api.fqToSlice {})", paren(&r)), "Fq2" => format!("(Sm9.Api.fq2ToSlice {})", paren(&r)), "Fq4" => format!("(Sm9.Api.fq4ToSlice {})", paren(&r)), _ => return Err("to_slice on an unknown component type".into()) } }
                 }
                 _ => return Ok(None),
             }
@@ -952,9 +962,9 @@ struct Target { file: &'static str, self_ty: &'static str, lean_ns: &'static str
 fn err_ty_of(file: &str) -> &'static str { match file { "groups.rs" => "GroupError", "lib.rs" => "CurveError", _ => "FieldError" } }
 
 const TARGETS: &[Target] = &[
-    Target { file: "fields/fq2.rs", self_ty: "Fq2", lean_ns: "Fq2", mono: None, fns: &["new", "scale", "unitary_inverse", "mul_by_nonresidue", "div2", "i", "neg_inplace", "sub_inplace", "add_inplace", "mul_inplace", "zero", "is_zero", "one", "double", "triple", "squared", "inverse"] },
-    Target { file: "fields/fq4.rs", self_ty: "Fq4", lean_ns: "Fq4", mono: None, fns: &["new", "scale", "scale_fq", "mul_by_nonresidue", "unitary_inverse", "mul_1", "mul_inplace", "sub_inplace", "add_inplace", "neg_inplace", "zero", "is_zero", "one", "double", "triple", "squared", "inverse", "frobenius_map"] },
-    Target { file: "fields/fq12.rs", self_ty: "Fq12", lean_ns: "Fq12", mono: None, fns: &["new", "mul_by_nonresidue", "scale", "mul_015", "mul_inplace", "neg_inplace", "add_inplace", "sub_inplace", "zero", "is_zero", "one", "double", "triple", "squared", "inverse", "frobenius_map"] },
+    Target { file: "fields/fq2.rs", self_ty: "Fq2", lean_ns: "Fq2", mono: None, fns: &["new", "scale", "unitary_inverse", "mul_by_nonresidue", "div2", "i", "neg_inplace", "sub_inplace", "add_inplace", "mul_inplace", "zero", "is_zero", "one", "double", "triple", "squared", "inverse", "to_slice"] },
+    Target { file: "fields/fq4.rs", self_ty: "Fq4", lean_ns: "Fq4", mono: None, fns: &["new", "scale", "scale_fq", "mul_by_nonresidue", "unitary_inverse", "mul_1", "mul_inplace", "sub_inplace", "add_inplace", "neg_inplace", "zero", "is_zero", "one", "double", "triple", "squared", "inverse", "frobenius_map", "to_slice"] },
+    Target { file: "fields/fq12.rs", self_ty: "Fq12", lean_ns: "Fq12", mono: None, fns: &["new", "mul_by_nonresidue", "scale", "mul_015", "mul_inplace", "neg_inplace", "add_inplace", "sub_inplace", "zero", "is_zero", "one", "double", "triple", "squared", "inverse", "frobenius_map", "to_slice"] },
     Target { file: "groups.rs", self_ty: "G", lean_ns: "G1", mono: Some("Fq"), fns: &["eq", "to_affine", "zero", "is_zero", "double", "add", "neg", "sub", "mul"] },
     Target { file: "groups.rs", self_ty: "G", lean_ns: "G2", mono: Some("Fq2"), fns: &["eq", "to_affine", "zero", "is_zero", "double", "add", "neg", "sub", "mul"] },
     Target { file: "pairings.rs", self_ty: "Fq12", lean_ns: "Fq12", mono: None, fns: &["final_exponentiation_first_chunk", "final_exponentiation_last_chunk", "final_exp_last_chunk"] },
@@ -966,6 +976,11 @@ const TARGETS: &[Target] = &[
     Target { file: "groups.rs", self_ty: "AffineG", lean_ns: "AffineG2", mono: Some("Fq2"), fns: &["new", "to_jacobian"] },
     Target { file: "lib.rs", self_ty: "G1", lean_ns: "LibG1", mono: None, fns: &["from_compressed", "to_compressed", "to_uncompressed", "from_uncompressed", "to_slice", "from_slice", "normalize"] },
     Target { file: "lib.rs", self_ty: "G2", lean_ns: "LibG2", mono: None, fns: &["from_compressed", "to_compressed", "to_uncompressed", "from_uncompressed", "to_slice", "from_slice", "normalize"] },
+    Target { file: "lib.rs", self_ty: "G1", lean_ns: "LibG1", mono: None, fns: &["new", "zero", "one", "is_zero", "add", "sub", "neg", "mul"] },
+    Target { file: "lib.rs", self_ty: "G2", lean_ns: "LibG2", mono: None, fns: &["new", "zero", "one", "is_zero", "add", "sub", "neg", "mul"] },
+    Target { file: "lib.rs", self_ty: "Gt", lean_ns: "LibGt", mono: None, fns: &["one", "pow", "inverse", "to_slice", "mul"] },
+    Target { file: "lib.rs", self_ty: "AffineG1", lean_ns: "LibAffineG1", mono: None, fns: &["from_jacobian"] },
+    Target { file: "lib.rs", self_ty: "AffineG2", lean_ns: "LibAffineG2", mono: None, fns: &["from_jacobian"] },
     Target { file: "lib.rs", self_ty: "G2Prepared", lean_ns: "LibG2Prepared", mono: None, fns: &["pairing", "from"] },
     Target { file: "lib.rs", self_ty: "", lean_ns: "Lib", mono: None, fns: &["pairing", "fast_pairing"] },
 ];
@@ -1008,7 +1023,7 @@ fn main() {
                 let name = m.sig.ident.to_string();
                 if !t.fns.contains(&name.as_str()) { continue; }
                 // skip trait impls we do not want (e.g. `Mul for G` is wanted as `mul`, `Add<&G>` wrappers are not)
-                if let Some((_, tr, _)) = &im.trait_ {
+ if let (Some((_, tr, _)), true) = (&im.trait_, t.file != "lib.rs") {
                     let trs = quote::quote!(#tr).to_string().replace(' ', "");
                     if (name == "add" && trs != "Add<G<P>>") || (name == "mul" && !trs.starts_with("Mul<Fr>")) || (name == "sub" && trs != "Sub<G<P>>") || (name == "neg" && trs != "Neg") || (name == "eq" && trs != "PartialEq") { continue; }
                     if name == "neg" && t.self_ty != "G" { continue; }
@@ -1047,14 +1062,17 @@ fn translate_fn(t: &Target, m: &ImplItemFn) -> R<(String, Vec<String>, bool)> {
     let name = m.sig.ident.to_string();
     let self_lean = match t.self_ty { "G" => format!("G {}", t.mono.unwrap()), "AffineG" => format!("AffineG {}", t.mono.unwrap()), "G2" => "G2".to_string(), o => o.to_string() };
     let self_lean = if t.file == "lib.rs" && t.self_ty == "" { String::new() } else { self_lean };
+    let self_lean = if t.file == "lib.rs" { match t.self_ty { "Gt" => "Fq12".to_string(), "AffineG1" => "AffineG Fq".to_string(), "AffineG2" => "AffineG Fq2".to_string(), _ => self_lean } } else { self_lean };
     let ret_s = match &m.sig.output { ReturnType::Type(_, ty) => quote::quote!(#ty).to_string(), _ => String::new() };
     let ret_option = ret_s.starts_with("Option");
     let ret_result = ret_s.starts_with("Result");
     let mut_self = m.sig.inputs.iter().any(|a| matches!(a, FnArg::Receiver(r) if r.mutability.is_some() && r.reference.is_some()));
     let outcome = contains_unwrap(&m.block) || calls_outcome(&m.block) || (t.self_ty == "G2Prepared" && name == "miller_loop");
-    let lib = t.file == "lib.rs";
+    let tower_bytes = t.file.starts_with("fields/fq") && name == "to_slice";
+    let lib = t.file == "lib.rs" || tower_bytes;
     let unit_ret = matches!(&m.sig.output, ReturnType::Default) && mut_self;
-    let elem = match (lib, t.self_ty) { (true, "G1") => "Fq", (true, "G2") => "Fq2", _ => "" }.to_string();
+    // the type whose `to_slice` / `is_even` the byte code of this impl calls on its components
+    let elem = match (lib, t.self_ty) { (true, "G1") => "Fq", (true, "G2") => "Fq2", (true, "Fq2") => "Fq", (true, "Fq4") => "Fq2", (true, "Fq12") if tower_bytes => "Fq4", _ => "" }.to_string();
     let outcome = outcome || (lib && { let b = &m.block; let s = quote::quote!(#b).to_string().replace(' ', ""); s.contains("pairings::pairing(") || s.contains("pairings::fast_pairing(") || s.contains("copy_from_slice(") });
     let cx = Ctx { self_ty: self_lean.clone(), mono: t.mono.map(|s| s.to_string()), ret_option, outcome, mut_self: mut_self && !unit_ret, fresh: std::cell::Cell::new(0), binds: Default::default(), uninit: Default::default(),
                    ret_result, err_ty: err_ty_of(t.file).to_string(), group_vars: Default::default(), ns: t.lean_ns.to_string(), lib, elem, unit_ret };
@@ -1062,7 +1080,10 @@ fn translate_fn(t: &Target, m: &ImplItemFn) -> R<(String, Vec<String>, bool)> {
     let mut pnames = vec![];
     for a in &m.sig.inputs {
         match a {
-            FnArg::Receiver(_) => { params.push(format!("(self : {})", self_lean)); pnames.push("self".to_string()); }
+            FnArg::Receiver(_) => {
+                if self_lean == "G1" || self_lean == "G2" || self_lean.starts_with("G ") { cx.group_vars.borrow_mut().insert("self".to_string()); }
+                params.push(format!("(self : {})", self_lean)); pnames.push("self".to_string());
+            }
             FnArg::Typed(p) => {
                 let n = pat_str(&p.pat)?;
                 let tl = ty_name(&p.ty, &cx)?;
